@@ -10,6 +10,15 @@ HL = "io_drawer.hlog."
 HEXDUMP = "pel.hexdump.hexdump"
 
 
+def nt_canon(t, fields):
+    """x.name / x.size of a HistoryLogField namedtuple == x[0] / x[1]"""
+    m = {}
+    for x in walk(t):
+        if isinstance(x, Op) and x.op.startswith("attr:") and x.op[5:] in fields and len(x.args) == 1:
+            m[x] = Op("getitem", nt_canon(x.args[0], fields), Const(fields.index(x.op[5:])))
+    return subst(t, m) if m else t
+
+
 def check_parse(rep, prog):
     rule = "C16.R1.fields"
     I = Interpreter(prog, hooks={"opaque": {HEXDUMP, HL + "get_hlog_fields"}})
@@ -19,6 +28,8 @@ def check_parse(rep, prog):
     items = list_items(I, r)
     if items is None:
         raise AnalysisError("parse_hlog_data does not return a list")
+    NT = ["name", "size"]
+    cz = lambda t: nt_canon(t, NT)
     # full hex dump first
     hd = [k for k, it in enumerate(items) if it[0] == "v" and any(isinstance(x, Op) and x.op == "call:" + HEXDUMP for x in walk(it[1]))]
     reps = [k for k, it in enumerate(items) if it[0] == "rep"]
@@ -28,36 +39,38 @@ def check_parse(rep, prog):
     fcall = [e for e in I.events if e.kind == "opaquecall" and e.data[0] == HL + "get_hlog_fields"]
     rep.check(len(fcall) == 1 and fcall[0].data[1] == (hdr,), rule, "fields come from get_hlog_fields(header file)", where, "get_hlog_fields(header_file_path)",
               "field table is not read from the given header file")
-    loops = [L for L in I.loops.values() if L.func == HL + "parse_hlog_data"]
-    if len(loops) != 1 or len(reps) != 1:
+    if len(reps) != 1:
         rep.fail(rule, where, "for field in fields", "field values are not produced by exactly one pass over the field table "
-                 "(%d loops, %d line sources): a field value must come from this pass' own read" % (len(loops), len(reps)))
+                 "(%d line sources): a field value must come from this pass' own read" % len(reps))
         return
-    L = loops[0]
+    L = items[reps[0]][1]          # the loop the field lines are produced in (inline, helper or generator)
     fields = Op("call:" + HL + "get_hlog_fields", hdr)
     rep.check(L.iter == fields, rule, "fields are visited in table order", where, L.node, "the loop does not iterate the field table as returned: %r" % (L.iter,), node=L.node)
     fld = Op("elem", fields, L.idx)
-    size = Op("attr:size", fld)
-    name = Op("attr:name", fld)
+    size = Op("getitem", fld, Const(1))
+    name = Op("getitem", fld, Const(0))
     idxk = [k for k in L.carried if k.endswith(".index")]
     if not idxk:
         rep.fail(rule, where, L.node, "fields are not read from one stream that advances field by field", node=L.node)
         return
     init, nxt, d, w = L.carried[idxk[0]]
+    nxt = cz(nxt)
     lv = [x for x in walk(nxt) if isinstance(x, Sym) and x.kind == "loopvar" and x.name.endswith(idxk[0])]
     Bi = lv[0] if lv else None
     fits = compare("le", Op("add", Bi, size), Op("len", DATA)) if Bi is not None else None
     okc = Bi is not None and init == Const(0) and nxt == pelx.ite(fits, Op("add", Bi, size), Bi)
     rep.check(okc, rule, "fields are consumed contiguously from offset 0, each advancing by its declared width", where, L.node,
               "stream position per field: start %r, step %r" % (init, nxt), node=L.node)
-    okb = len(L.breaks) == 1 and Bi is not None and L.breaks[0] == not_(fits)
-    rep.check(okb, rule, "listing stops at the first field that does not fit (break, not skip)", where, L.node,
-              "a field that does not fit in the data does not end the listing (break conditions: %r): later, narrower fields are decoded "
-              "from the leftover bytes" % (L.breaks,), node=L.node)
+    stops = [cz(x) for x in L.stops]
+    okb = len(stops) == 1 and Bi is not None and stops[0] == not_(fits)
+    rep.check(okb, rule, "listing stops at the first field that does not fit (break/return, not skip)", where, L.node,
+              "a field that does not fit in the data does not end the listing (stop conditions: %r): later, narrower fields are decoded "
+              "from the leftover bytes" % (stops,), node=L.node)
     if Bi is None:
         return
     value = Op("int_from_bytes", Op("getslice", DATA, Bi, Op("add", Bi, size)), Const("big"), Const(False))
     _, _, line, g = items[reps[0]]
+    line, g = cz(line), cz(g)
     want_g = and_(compare("ne", value, Const(0)), fits)
     okg = implies(g, want_g)[0] and implies(want_g, g)[0]
     rep.check(okg, rule, "a line is emitted iff the field fits and its big-endian unsigned value is non-zero", where, "if value != 0",
@@ -85,7 +98,7 @@ def check_fields(rep, prog):
     if ok:
         _, L, ref, g = items[0]
         o = I.heap.get(ref.oid) if isinstance(ref, Ref) else None
-        ok = isinstance(o, ListObj) and getattr(o, "fields", None) == ["name", "size"] and isinstance(L.iter, Op) and L.iter.op == "file" and not L.breaks
+        ok = isinstance(o, ListObj) and getattr(o, "fields", None) == ["name", "size"] and isinstance(L.iter, Op) and L.iter.op == "file" and not L.stops
         if ok:
             nm, sz = o.items[0][1], o.items[1][1]
             grp = [x for x in walk(sz) if isinstance(x, Op) and x.op == "m:groups"]
